@@ -271,6 +271,9 @@ func reuseCheckShape(reuse DenseTensor, s Shape) (err error) {
 
 	if axes := reuse.transposeAxes(); axes != nil {
 		ReturnInts(axes)
+		if d, ok := reuse.(*Dense); ok {
+			d.transposeWith = nil // the pool owns the slice now: a later UT or ReturnTensor must not hand it back again
+		}
 	}
 
 	if viewOf := reuse.parentTensor(); viewOf != nil {
